@@ -280,36 +280,61 @@ fn inflate_bytes(data: &[u8]) -> Result<Vec<u8>> {
     Ok(decoded)
 }
 
-/// Row geometry of a predictor: (bytes per row, bytes per pixel).
+/// Row geometry of a predictor: (bytes per row, bytes per pixel rounded up to 1).
 fn predictor_geometry(params: &LZWFlateParams) -> Result<(usize, usize)> {
-    if params.n_components < 1 || params.columns < 1 {
-        bail!("invalid predictor geometry: Colors {}, Columns {}", params.n_components, params.columns);
+    if params.n_components < 1 || params.columns < 1 || !matches!(params.bits_per_component, 1 | 2 | 4 | 8 | 16) {
+        bail!("invalid predictor geometry: Colors {}, BitsPerComponent {}, Columns {}",
+            params.n_components, params.bits_per_component, params.columns);
     }
-    let n_components = params.n_components as usize;
-    let columns = params.columns as usize;
-    let stride = columns.checked_mul(n_components)
-        .ok_or_else(|| PdfError::Other { msg: "predictor geometry overflows".into() })?;
-    Ok((stride, n_components))
+    let overflow = || PdfError::Other { msg: "predictor geometry overflows".into() };
+    let bits_per_pixel = (params.n_components as usize).checked_mul(params.bits_per_component as usize).ok_or_else(overflow)?;
+    let bits_per_row = (params.columns as usize).checked_mul(bits_per_pixel).ok_or_else(overflow)?;
+    let stride = bits_per_row / 8 + (bits_per_row % 8 != 0) as usize;
+    let bpp = bits_per_pixel / 8 + (bits_per_pixel % 8 != 0) as usize;
+    Ok((stride, bpp))
 }
 
-pub fn flate_decode(data: &[u8], params: &LZWFlateParams) -> Result<Vec<u8>> {
+/// The samples of a row, most significant bits first (16 bit samples are big endian).
+fn unpack_samples(row: &[u8], bpc: usize) -> Vec<u16> {
+    if bpc == 16 {
+        row.chunks_exact(2).map(|p| u16::from_be_bytes([p[0], p[1]])).collect()
+    } else {
+        let per_byte = 8 / bpc;
+        let mask = (1u16 << bpc) - 1;
+        row.iter().flat_map(|&b| (0 .. per_byte).map(move |k| (b as u16 >> (8 - bpc * (k + 1))) & mask)).collect()
+    }
+}
+
+fn pack_samples(samples: &[u16], bpc: usize, row: &mut [u8]) {
+    if bpc == 16 {
+        for (p, s) in row.chunks_exact_mut(2).zip(samples) {
+            p.copy_from_slice(&s.to_be_bytes());
+        }
+    } else {
+        let per_byte = 8 / bpc;
+        for (b, ss) in row.iter_mut().zip(samples.chunks(per_byte)) {
+            *b = ss.iter().fold(0u16, |acc, &s| (acc << bpc) | s) as u8;
+        }
+    }
+}
+
+/// Undo TIFF predictor 2 (horizontal differencing) on one row, in place.
+fn tiff_unpredict_row(row: &mut [u8], colors: usize, bpc: usize, n_samples: usize) {
+    let mut samples = unpack_samples(row, bpc);
+    let mask = ((1u32 << bpc) - 1) as u16;
+    for i in colors .. n_samples {
+        samples[i] = samples[i].wrapping_add(samples[i - colors]) & mask;
+    }
+    pack_samples(&samples, bpc, row);
+}
+
+/// Undo the predictor selected by the parameters (after Flate or LZW decompression).
+fn unpredict(decoded: Vec<u8>, params: &LZWFlateParams) -> Result<Vec<u8>> {
     let predictor = params.predictor;
 
-    // First flate decode
-    let decoded = {
-        if let Ok(data) = inflate_bytes_zlib(data) {
-            data
-        } else if let Ok(data) = inflate_bytes(data) {
-            data
-        } else {
-            dump_data(data);
-            bail!("can't inflate");
-        }
-    };
-    // Then unfilter (PNG)
-    // For this, take the old out as input, and write output to out
-
     if predictor >= 10 {
+        // unfilter (PNG)
+        // For this, take the old out as input, and write output to out
         let (stride, bpp) = predictor_geometry(params)?;
         let inp = decoded; // input buffer
         let rows = inp.len() / (stride+1);
@@ -348,9 +373,36 @@ pub fn flate_decode(data: &[u8], params: &LZWFlateParams) -> Result<Vec<u8>> {
             out_off += stride;
         }
         Ok(out)
+    } else if predictor == 2 {
+        // TIFF predictor 2; an incomplete final row is left as it is
+        let (stride, _) = predictor_geometry(params)?;
+        let colors = params.n_components as usize;
+        let bpc = params.bits_per_component as usize;
+        let n_samples = colors * params.columns as usize;
+        let mut out = decoded;
+        for row in out.chunks_exact_mut(stride) {
+            tiff_unpredict_row(row, colors, bpc, n_samples);
+        }
+        Ok(out)
     } else {
         Ok(decoded)
     }
+}
+
+pub fn flate_decode(data: &[u8], params: &LZWFlateParams) -> Result<Vec<u8>> {
+    // First flate decode
+    let decoded = {
+        if let Ok(data) = inflate_bytes_zlib(data) {
+            data
+        } else if let Ok(data) = inflate_bytes(data) {
+            data
+        } else {
+            dump_data(data);
+            bail!("can't inflate");
+        }
+    };
+    // Then undo the predictor
+    unpredict(decoded, params)
 }
 fn flate_encode(data: &[u8]) -> Vec<u8> {
     use libflate::zlib::Encoder;
@@ -379,7 +431,7 @@ pub fn lzw_decode(data: &[u8], params: &LZWFlateParams) -> Result<Vec<u8>> {
     decoder
         .into_stream(&mut out)
         .decode_all(data).status?;
-    Ok(out)
+    unpredict(out, params)
 }
 fn lzw_encode(data: &[u8], params: &LZWFlateParams) -> Result<Vec<u8>> {
     use weezl::{BitOrder, encode::Encoder};
